@@ -760,8 +760,12 @@ def lambdify(args: dict, exprs: list, funcname: str, dependencies: tuple = None,
         _exprs = list('0' for expr in _exprs)
     funcstr = funcprinter.doprint(funcname, iterable_args, names, _exprs, cses=cses)
 
-    # Provide lambda expression with builtins, and compatible implementation of range
-    namespace = {'builtins': builtins, 'range': range}
+    # Provide lambda expression with builtins, compatible implementation of range, and the elementary functions
+    # (sin, cos, exp, sqrt, ...) the printer may refer to.
+    import math
+    import numpy
+    namespace = {name: getattr(numpy, name, func) for name, func in vars(math).items() if not name.startswith('_')}
+    namespace.update({'builtins': builtins, 'range': range})
 
     funclocals = {}
     filename = f'<{funcname}>'
